@@ -42,7 +42,7 @@ def run(chk):
                       "(= C15 R15.1-R15.5), and symmetry operations survive their string form (= C11 R11.2 digits, R11.7 string codec)", 20)
     if chk.want("R10.8"):
         from ..inherit import inherit
-        inherit(chk, "R10.8", "c15", ["R15.1", "R15.2", "R15.3", "R15.4", "R15.5"])
+        inherit(chk, "R10.8", "c15", ["R15.1", "R15.2", "R15.3", "R15.4", "R15.5", "R15.7"])
         inherit(chk, "R10.8", "c11", ["R11.2", "R11.7"])
     chk.rule("R10.6", "memo discipline of class Crystal (= C14 R14.2) and no caching decorator on file readers/writers", 3)
     if chk.want("R10.6"):
